@@ -1,11 +1,12 @@
 (* C01 Compiled PIL preserves each component's strands, structures and constraints.
    Emission half, for every component object satisfying the invariant WF:
    re-reading the emitted lines through their own definitions (as the PIL reader resolves
-   names) gives exactly the nucleotides of the model objects.  WF is established per
-   compiled case by the verified checker wf_check (C01_wf_check_sound); the statement that
-   every accepted program yields a WF object is C01_compile_wf (CompileProofs.v). *)
+   names) gives exactly the nucleotides of the model objects.  C01_compile_wf: every program
+   the compile model accepts yields an object satisfying WF (proved by induction over the
+   statements; the verified checker wf_check additionally re-establishes it per compiled case),
+   so C01_compile_emit states the re-reading theorems for every accepted program. *)
 From Coq Require Import List String.
-From PC Require Import Comp.Syntax Comp.Compile Comp.Denote Comp.EmitProofs Comp.WfCheck.
+From PC Require Import Comp.Syntax Comp.Compile Comp.Denote Comp.EmitProofs Comp.WfCheck Comp.WfPil Comp.CompileProofs.
 Import ListNotations.
 
 Theorem C01_emit_defs : forall c, WF c -> pil_defs (emit_comp c) [] = Some (final_env c).
@@ -43,3 +44,18 @@ Print Assumptions C01_flat_rc.
 Theorem C01_wf_check_sound : forall c, wf_check c = true -> WF c.
 Proof. exact wf_check_sound. Qed.
 Print Assumptions C01_wf_check_sound.
+
+(* every accepted program (identifiers not of the reserved form _Anon...) yields a well-formed object,
+   and the counter returned is beyond every anonymous name in it *)
+Theorem C01_compile_wf : forall ctr prefix d body c ctr', forallb stmt_ok body = true ->
+  compile_comp ctr prefix d body = OK (c, ctr') -> WF c /\ WF2 c /\ fresh_from c ctr'.
+Proof. exact compile_comp_inv. Qed.
+Print Assumptions C01_compile_wf.
+
+Theorem C01_compile_emit : forall ctr prefix d body c ctr', forallb stmt_ok body = true ->
+  compile_comp ctr prefix d body = OK (c, ctr') ->
+  pil_defs (emit_comp c) [] = Some (final_env c) /\
+  pil_strands (emit_comp c) (final_env c) =
+    map (fun '(n, t) => (c_prefix c +++ n, t_dummy t, Some (flatB c (s_base (t_sup t))), s_len (t_sup t))) (c_strands c).
+Proof. exact compile_emit_defs. Qed.
+Print Assumptions C01_compile_emit.
